@@ -87,8 +87,9 @@ Section Analysis.
 
   Definition empty_list_hash : bytes := H [].     (* dds_hash([]) *)
 
-  Definition call_ctx (lines : list bytes) (line : nat) (input_sig : bytes) (inters : list fi) : aerr + bytes :=
-    match hash_lines (firstn (S line) lines) with
+  (* the call-site context covers the source up to max(lineno + 1, end_lineno) (fix of F01) *)
+  Definition call_ctx (lines : list bytes) (line eline : nat) (input_sig : bytes) (inters : list fi) : aerr + bytes :=
+    match hash_lines (firstn (Nat.max (S line) eline) lines) with
     | inl e => inl e
     | inr bh =>
       let inter := match X (fis_siglist inters) with Some ih => [(k_fun_inter, ih)] | None => [] end in
@@ -198,11 +199,8 @@ Section Analysis.
     end
   with ana_step (s : step) (lines : list bytes) (input_sig : bytes) (acc : st3) {struct s} : aerr + st3 :=
     let '(inters, loads, R) := acc in
-    match s with
-    | SLoad p => inr (inters, loads ++ [p], R)
-    | SApply _ => inr acc
-    | SCall line g _ | SRef line g _ =>
-      match call_ctx lines line input_sig inters with
+    let ana_plain_call (g : fn) (lines : list bytes) (line eline : nat) (input_sig : bytes) (acc : st3) : aerr + st3 :=
+      match call_ctx lines line eline input_sig inters with
       | inl e => inl e
       | inr c =>
         match callee_ctx_plain g with
@@ -213,9 +211,14 @@ Section Analysis.
           | inr (x, R') => inr (inters ++ [x], loads, R')
           end
         end
-      end
-    | SKeep line p g pos kw =>
-      match call_ctx lines line input_sig inters with
+      end in
+    match s with
+    | SLoad p => inr (inters, loads ++ [p], R)
+    | SApply _ => inr acc
+    | SCall line eline g _ => ana_plain_call g lines line eline input_sig acc
+    | SRef line g _ => ana_plain_call g lines line line input_sig acc
+    | SKeep line eline p g pos kw =>
+      match call_ctx lines line eline input_sig inters with
       | inl e => inl e
       | inr c =>
         match arg_ctx_ast H maxlen (fn_params g) 0 (map snd pos) (map (fun nk => (fst nk, snd (snd nk))) kw) with
